@@ -117,13 +117,17 @@ def generate(rng, cfg: Dict) -> Dict:
     ops = []
     n_ops = c.int(5, 30)
     for _ in range(n_ops):
-        kind = c.weighted([("read", 10), ("derive", 3), ("render", 1.5 if symbol_family else 0), ("recheck", 1)])
+        kind = c.weighted([("read", 10), ("derive", 3), ("render", 1.5 if symbol_family else 0), ("recheck", 1), ("readd", 1)])
         if kind == "read":
             ops.append(["read", c.int(0, 3), c.pick(READS), c.int(0, n - 1)])
         elif kind == "derive":
             ops.append(["derive", c.int(0, 3), c.chance(0.5)])
         elif kind == "render":
             ops.append(["render", c.chance(0.7)])
+        elif kind == "readd":
+            # add_node for a class the receiver already contains (by class or by the wrapped class of ANOTHER diagram,
+            # which a derived view shares with its source): a no-op that must leave every diagram as it is
+            ops.append(["readd", c.int(0, 3), c.int(0, n - 1), c.pick(["class", "own_node", "foreign_node"]), c.int(0, 3)])
         else:
             ops.append(["recheck"])
     return {"property": "C17", "machine": "diagram_sim", "symbol_family": symbol_family, "decoy": two_modules and c.chance(0.6), "future_annotations": c.chance(0.3), "second_family": c.chance(0.35),
@@ -517,6 +521,16 @@ def execute(scenario: Dict) -> Dict:
                         lost = [e for e in sg_snapshot["edges"] if e not in now["edges"]]
                         verdicts.append(kernel.verdict("C17.snapshot", f"op {n}: rendering the symbol graph's type diagram changed it: lost {lost[:4]}", aspect="lost-edges", where="render"))
                         break
+                elif kind == "readd":
+                    rec = diagrams[op[1] % len(diagrams)]
+                    cls = classes[members1[op[2] % len(members1)]]
+                    if op[3] == "class":
+                        rec["d"].add_node(cls)
+                    elif op[3] == "own_node":
+                        rec["d"].add_node(rec["d"].get_wrapped_class(cls))
+                    else:
+                        rec["d"].add_node(diagrams[op[4] % len(diagrams)]["d"].get_wrapped_class(cls))
+                    counters.inc("fault.add_node_for_contained_class")
                 elif kind == "recheck":
                     if not (classify(d1, "order1 (again)")):
                         break
